@@ -24,6 +24,7 @@ type MsgInfo struct {
 // cluster seed.
 type Policy struct {
 	Drop     float64       // probability a message is lost
+	Fail     float64       // probability a send fails with an error (the message is not delivered; the sender is told)
 	Dup      float64       // probability a message is delivered twice
 	DelayMax time.Duration // uniform extra delay (reorders)
 	Blocked  map[[2]uint64]bool
@@ -131,6 +132,9 @@ func (s *SimNet) send(from, to uint64, req *pb.RaftMessage) (*pb.EmptyMessage, e
 	if p.DelayMax > 0 {
 		d1 = time.Duration(s.rng.Int63n(int64(p.DelayMax)))
 		d2 = time.Duration(s.rng.Int63n(int64(p.DelayMax)))
+	}
+	if !drop && p.Fail > 0 && m.Type != raftpb.MsgProp && s.rng.Float64() < p.Fail {
+		drop, blocked = true, true // the send fails and the sender is told (a reset connection, a refused stream)
 	}
 	s.mu.Unlock()
 	if drop {
